@@ -102,7 +102,26 @@ def check_one(desc, acc):
             acc.outcomes.add(hash(repr((sorted(want_e.items()), sorted(want_s.items()), sorted(want_w.items())))))
 
 
+def permuted(desc):
+    """the same content with its hyperedges listed (hence inserted) in every order - insertion order must not matter"""
+    n = len(desc["edges"])
+    for perm in itertools.permutations(range(n)):
+        if list(perm) == list(range(n)):
+            continue
+        d = dict(desc)
+        d["edges"] = tuple(desc["edges"][i] for i in perm)
+        if desc["weights"]:
+            d["weights"] = tuple(desc["weights"][i] for i in perm)
+        yield d
+
+
 def corpus(tier):
+    # every insertion order of up to three hyperedges over four nodes (shapes with 2-node sources/targets included)
+    for d in C.directed_contents((1, 2, 3, 4), max_edges=3, min_edges=3, weighted=(False,), md_styles=(0,), max_size=3):
+        if tier != "quick" or any(len(s) > 1 for s, t in d["edges"]):
+            if tier != "quick" or hash(d["edges"]) % 6 == 0:
+                yield from permuted(d)
+    yield from C.directed_contents((1, 2, 3), isolated=(9,), max_edges=2, min_edges=1, weighted=(True,), md_styles=(0,))
     if tier == "quick":
         yield from C.directed_contents((1, 2, 3), isolated=(9,), max_edges=4, weighted=(False,), md_styles=(0,))
         yield from C.directed_contents((2, 5, 7, 11), max_edges=2, weighted=(False,), md_styles=(0,))
